@@ -1112,3 +1112,39 @@ package connect
 //@   assert@call(wrapHandlerConnWithCodedErrors#1): hdom(rwheader(responseWriter), "Content-Type") && hraw(rwheader(responseWriter), "Content-Type") == [hget(request.Header, "Content-Type")]   // label: content-type-echoes-the-request   // tags: C05
 //@   assert@call(wrapHandlerConnWithCodedErrors#1): let c := cast(arg0, "*grpcHandlerConn") in c.marshaler.envelopeWriter.compressMinBytes == g.protocolHandlerParams.CompressMinBytes && c.marshaler.envelopeWriter.writer == responseWriter && c.unmarshaler.envelopeReader.readMaxBytes == g.protocolHandlerParams.ReadMaxBytes && c.unmarshaler.envelopeReader.reader == request.Body && c.web == g.web && c.unmarshaler.web == g.web   // label: conn-carries-the-handler's-limits-and-threshold   // tags: C08, C09
 //@   assert@call(wrapHandlerConnWithCodedErrors#1): cast(arg0, "*grpcHandlerConn").marshaler.envelopeWriter.compressionPool != nil ==> hdom(rwheader(responseWriter), "Grpc-Encoding") && hraw(rwheader(responseWriter), "Grpc-Encoding") == [callres("negotiateCompression", 1, 1)] && callres("negotiateCompression", 1, 1) != "identity"   // label: compressed-flag-only-with-an-encoding-header   // tags: C05, C08
+
+// ---------------------------------------------------------------------------
+// client-side request headers (C01/C08: encoding header; C10: timeout header)
+// ---------------------------------------------------------------------------
+
+//@ func connectUserAgent() res
+//@   tags C05
+//@ func connectContentTypeFromCodecName(streamType, name) res
+//@   tags C05, C12
+//@   ensures streamType == 0 ==> res == "application/" ++ name
+//@   ensures streamType != 0 ==> res == "application/connect+" ++ name
+
+//@ func (*connectClient).WriteRequestHeader(c, streamType, header)
+//@   tags C01, C05, C08
+//@   requires c != nil && header != nil && c.protocolClientParams.Codec != nil && c.protocolClientParams.CompressionPools != nil
+//@   assigns mapof(header), mapvals(header)
+//@   ensures streamType == 0 ==> hdom(header, "Content-Encoding") == old(hdom(header, "Content-Encoding")) && hraw(header, "Content-Encoding") == old(hraw(header, "Content-Encoding"))   // label: unary-request-encoding-is-left-to-the-marshaler   // tags: C01, C08
+//@   ensures streamType != 0 && c.protocolClientParams.CompressionName != "" && c.protocolClientParams.CompressionName != "identity" ==> hdom(header, "Connect-Content-Encoding") && hraw(header, "Connect-Content-Encoding") == [c.protocolClientParams.CompressionName]   // label: streaming-request-names-its-compression   // tags: C05, C08
+//@   ensures streamType != 0 && (c.protocolClientParams.CompressionName == "" || c.protocolClientParams.CompressionName == "identity") ==> hdom(header, "Connect-Content-Encoding") == old(hdom(header, "Connect-Content-Encoding"))   // label: no-compression-no-encoding-header   // tags: C05, C08
+//@   ensures hdom(header, "Content-Type") && hraw(header, "Content-Type") == [callres("connectContentTypeFromCodecName", 1)]   // label: content-type-names-protocol-and-codec   // tags: C05
+
+//@ constfield protocolClientParams.CompressionPools, protocolClientParams.Codec, protocolClientParams.BufferPool, protocolClientParams.HTTPClient, protocolClientParams.Protobuf
+//@ func (*connectClient).NewConn(c, ctx, spec, header) res
+//@   tags C10
+//@   requires c != nil && ctx != nil && header != nil && c.protocolClientParams.CompressionPools != nil
+//@   assigns everything
+//@   assert@call(newDuplexHTTPCall#1): !callresb("context.Context.Deadline", 1, 1) ==> hdom(header, "Connect-Timeout-Ms") == old(hdom(header, "Connect-Timeout-Ms")) && hraw(header, "Connect-Timeout-Ms") == old(hraw(header, "Connect-Timeout-Ms"))   // label: no-deadline-no-timeout-header
+//@   assert@call(newDuplexHTTPCall#1): callresb("context.Context.Deadline", 1, 1) && callres("time.Until", 1) >= 1000000 && callres("time.Until", 1) / 1000000 < 10000000000 ==> hdom(header, "Connect-Timeout-Ms") && hraw(header, "Connect-Timeout-Ms") == [dec(callres("time.Until", 1) / 1000000)]   // label: timeout-is-the-remaining-time-in-whole-milliseconds
+//@   assert@call(newDuplexHTTPCall#1): callresb("context.Context.Deadline", 1, 1) && callres("time.Until", 1) / 1000000 >= 10000000000 ==> hdom(header, "Connect-Timeout-Ms") == old(hdom(header, "Connect-Timeout-Ms")) && hraw(header, "Connect-Timeout-Ms") == old(hraw(header, "Connect-Timeout-Ms"))   // label: too-large-a-timeout-is-omitted-not-truncated
+
+//@ func (*grpcClient).NewConn(g, ctx, spec, header) res
+//@   tags C10
+//@   requires g != nil && ctx != nil && header != nil && g.protocolClientParams.CompressionPools != nil
+//@   assigns everything
+//@   assert@call(newDuplexHTTPCall#1): !callresb("context.Context.Deadline", 1, 1) ==> hdom(header, "Grpc-Timeout") == old(hdom(header, "Grpc-Timeout")) && hraw(header, "Grpc-Timeout") == old(hraw(header, "Grpc-Timeout"))   // label: no-deadline-no-timeout-header
+//@   assert@call(newDuplexHTTPCall#1): callresb("context.Context.Deadline", 1, 1) && callres("time.Until", 1) > 0 ==> hdom(header, "Grpc-Timeout") && hraw(header, "Grpc-Timeout") == [callres("grpcEncodeTimeout", 1, 0)] && gramT(callres("grpcEncodeTimeout", 1, 0)) && durT(callres("grpcEncodeTimeout", 1, 0)) <= callres("time.Until", 1)   // label: timeout-is-the-encoded-remaining-time
